@@ -273,6 +273,8 @@ def oracle(case, op, res, mem, structs, chip=None):
     buffer = case["buffer"]
     tgt = target(case, op, mem, structs, chip)
     outcome = res["outcome"]
+    if tgt[0] in ("read", "write") and not (0 <= tgt[2] and tgt[2] + (tgt[3] if tgt[0] == "read" else len(tgt[3])) <= TWO32):
+        return [("generator-out-of-domain", "the generator produced a range outside the 32-bit space: %r" % (op,))]
     # every individual command: within the advertised buffer, unit only when address and length allow it
     for t in res["trace"]:
         x, y, p, cmd, a1, a2, a3, data = t[:8]
@@ -1060,7 +1062,7 @@ def gen_contexts(rng, structs):
                 p = d["p"]
         k = rng.choice(["read", "write", "write", "fill", "read_struct", "write_struct"])
         n = rng.randint(1, 2 * B + 3)
-        a = rand_base(rng, n + 8) + rng.randrange(4)
+        a = rand_base(rng, max(n, 40) + 8) + rng.randrange(4)         # also room for a fill of up to 40 bytes
         if k == "read":
             ops.append([k, p, a, n])
         elif k == "write":
@@ -1238,6 +1240,12 @@ def run(chk, args):
             for i, (op, r) in enumerate(zip(c["ops"], res)):
                 chk.count("outcome:" + (r["outcome"][0] if r["outcome"][0] != "exc" else r["outcome"][1]))
                 verdicts = oracle(c, op, r, mem, cstructs, op_chip(c, i))
+                if verdicts and verdicts[0][0] == "generator-out-of-domain":
+                    # a defect of this harness, not of the implementation: never reported as a failing input
+                    if "generator" not in seen_keys:
+                        chk.oblige("generator:in-domain", False, verdicts[0][1] + " " + json.dumps(c)[:600])
+                    seen_keys.add("generator")
+                    break
                 for key, what in verdicts:
                     if key not in seen_keys or len(chk.failing) < 10:
                         chk.fail_input(key, what, dict(case=c, op=op, observed=dict(outcome=r["outcome"], trace=r["trace"][:12])))
